@@ -118,7 +118,7 @@ def shift_x_set(w, rnd, nrand):
 class Sets:
     def __init__(self, sd, thorough):
         rnd = random.Random(1000003 * sd + 17)
-        nr = 28 if thorough else 3
+        nr = 40 if thorough else 3
         self.bin = {w: boundary(w, rnd, nr) for w in WIDTHS}
         self.conv = dict(self.bin)
         self.conv[8] = list(range(256))               # every 8-bit source value
